@@ -48,6 +48,9 @@ type c10Op struct {
 	// Body (update with an empty assignment): how the empty assignment is written: "" = {"Targets":{}} as the
 	// coordinator's client marshals it, "null" = {"Targets":null}, "none" = {} - all three assign nothing
 	Body string `json:"body,omitempty"`
+	// CType (update): the Content-Type header of the request: "" = application/json (what the coordinator's client
+	// sends), "none" = no header, otherwise the given value - the body is JSON all the same, as with curl -d
+	CType string `json:"ctype,omitempty"`
 }
 
 type c10T struct {
@@ -247,7 +250,7 @@ func runC10(rec *vkit.Recorder, c *c10Case) []vkit.Violation {
 		}
 		return out, nil
 	}
-	emptyBody := ""
+	emptyBody, updateCType := "", ""
 	doUpdate := func(i int, assign map[string][]c10T, reloadFails bool) bool {
 		req := &shard.UpdateTargetsRequest{Targets: map[string][]*target.Target{}}
 		for job, ts := range assign {
@@ -269,6 +272,9 @@ func runC10(rec *vkit.Recorder, c *c10Case) []vkit.Violation {
 			code, body = n.do("POST", "/api/v1/shard/targets/", []byte(`{"Targets":null}`))
 		case len(assign) == 0 && emptyBody == "none":
 			code, body = n.do("POST", "/api/v1/shard/targets/", []byte(`{}`))
+		case updateCType != "":
+			b, _ := json.Marshal(req)
+			code, body = n.doCT("POST", "/api/v1/shard/targets/", b, updateCType)
 		default:
 			code, body = n.post("/api/v1/shard/targets/", req)
 		}
@@ -360,9 +366,9 @@ func runC10(rec *vkit.Recorder, c *c10Case) []vkit.Violation {
 		}
 		switch op.Kind {
 		case "update":
-			emptyBody = op.Body
+			emptyBody, updateCType = op.Body, op.CType
 			doUpdate(i, op.Assign, op.ReloadFails)
-			emptyBody = ""
+			emptyBody, updateCType = "", ""
 		case "scrape":
 			m := model[op.Hash]
 			job := "ja"
@@ -523,6 +529,7 @@ func genC10(t *rapid.T) *c10Case {
 				}
 			}
 			op.ReloadFails = rapid.IntRange(0, 7).Draw(t, l+"-reloadFails") == 0
+			op.CType = rapid.SampledFrom([]string{"", "", "", "none", "text/plain", "application/x-www-form-urlencoded", "application/json; charset=utf-8"}).Draw(t, l+"-ctype")
 			// (the generator goes on from the requested assignment also when the update fails: the sidecar tracks
 			// it in memory; only a restart goes back to the acknowledged one, and updates are complete lists)
 			cur = map[uint64]c10T{}
